@@ -23,7 +23,7 @@ ENTRY = dict(
             "every unanswered kind is listed as failed": "theorem (errors_exact, unanswered_listed)",
             "no answered kind listed as long as product information was answered": "theorem (answered_not_listed)",
             "each unanswered request transmitted `retries` times": "theorem (failed_transmitted_R_times, transmitted_at_most_R_times)",
-            "data of every answered request available": "theorem (data_available, answered_data_available) for the model's availability; decoded content by correspondence (names present in device.data)",
+            "data of every answered request available": "theorem (data_available, answered_data_available) for the model's availability; decoded content by correspondence (the name is in device.data AND the content of the answer given can be read back: named parameters, alerts, schedules, product model ...)",
             "8 requests, product first, 3 attempts x 3 s, handlers that await product information": "table (ecomax_cfg) + correspondence (which handlers block)",
             "the frame-versions handler's requests do not replace or disturb the set-up requests": "theorem (versions_before_setup_irrelevant) + correspondence (regulator-data message with a version table before / during / after set-up)",
             "the judge applied to the implementation accepts every run of the machine": "theorem (holds)",
